@@ -87,6 +87,7 @@ const (
 type Beh struct {
 	Kind    int
 	DelayMs int
+	SkewS   int // behSCT: the SCT's timestamp is the instant of issue plus SkewS seconds (-3600..3600)
 }
 
 func logURL(i int) string { return fmt.Sprintf("https://log%02d.example/ct/", i) }
